@@ -165,12 +165,21 @@ def loaderNext (s : St) : St × String :=
 structure Sched where
   s : St
   pending : Option Nat     -- an Offer started while the loader holds the lock
+  taking : Bool := false   -- a consumer is blocked in Take() (the channel is empty while this holds)
+
+/-- a consumer blocked in `Take` receives as soon as the channel holds a value -/
+def serve (m : Sched) (out : String) : Sched × String :=
+  if m.taking then
+    match m.s.chan with
+    | x :: _ => ({ m with s := stepD m.s .recvTake, taking := false }, out ++ s!" take=ok {x}")
+    | [] => (m, out)
+  else (m, out)
 
 def afterPass (m : Sched) (out : String) : Sched × String :=
   match m.pending with
   | some v =>
     let (s1, r) := offerCall m.s v
-    ({ s := syncLoader s1, pending := none }, out ++ " offer=" ++ r)
+    ({ m with s := syncLoader s1, pending := none }, out ++ " offer=" ++ r)
   | none => ({ m with s := syncLoader m.s }, out)
 
 def schedStep (m : Sched) (tok : String) : Sched × String :=
@@ -181,10 +190,13 @@ def schedStep (m : Sched) (tok : String) : Sched × String :=
     | none => (m, "bad-op")
     | some v =>
       if inpass then
-        if m.pending.isSome then (m, "skip") else ({ m with pending := some v }, "pending")
+        if m.pending.isSome || m.taking then (m, "skip") else ({ m with pending := some v }, "pending")
       else
         let (s1, r) := offerCall m.s v
-        ({ m with s := s1 }, if r == "full" then s!"full pool={s1.pool.length}" else r)
+        serve { m with s := s1 } (if r == "full" then s!"full pool={s1.pool.length}" else r)
+  | ["B"] =>       -- a consumer thread calls Take() on an empty channel and blocks in the receive
+    if inpass || m.taking || m.s.c == 0 || !m.s.chan.isEmpty then (m, "skip")
+    else ({ m with s := stepD (stepD m.s .notify) .recvWait, taking := true }, "started")
   | ["p"] => if inpass then (m, "skip") else let (s1, r) := pollCall m.s; ({ m with s := s1 }, r)
   | ["t"] =>
     if inpass then (m, "skip") else
@@ -212,8 +224,10 @@ def schedStep (m : Sched) (tok : String) : Sched × String :=
     if inpass then
       match step m.s .loaderSend with
       | some s1 =>
-        let (s2, r) := loaderNext s1
-        if r == "pass-done" then afterPass { m with s := s2 } ("moved " ++ r) else ({ m with s := s2 }, "moved " ++ r)
+        let (m1, suffix) := serve { m with s := s1 } ""
+        let (s2, r) := loaderNext m1.s
+        if r == "pass-done" then afterPass { m1 with s := s2 } ("moved " ++ r ++ suffix)
+        else ({ m1 with s := s2 }, "moved " ++ r ++ suffix)
       | none =>
         match step m.s .loaderUnshift with
         | some s1 => afterPass { m with s := s1 } "unshift pass-done"
@@ -244,7 +258,7 @@ def schedCase (toks : List String) (body : String) : String :=
   let s0 := syncLoader (init (field toks "c") (field toks "b"))
   let (_, outs) := (splitOps body).foldl (fun (acc : Sched × List String) tok =>
     let (m, o) := schedStep acc.1 tok
-    (m, o :: acc.2)) (⟨s0, none⟩, [])
+    (m, o :: acc.2)) (({ s := s0, pending := none } : Sched), [])
   " | ".intercalate outs.reverse
 
 /-! ### ChannelQueue's own wrappers: `chq cap=K: step ; …` over a Go channel (FIFO buffer, closed flag) -/
@@ -391,7 +405,10 @@ def flag (t : Track) (why : String) : Track :=
 /-- one observed result token checked against: FIFO exactly-once delivery in acceptance order, the bound
     `c + b`, `full` only with at least `b` values held, Count = accepted − delivered -/
 def trackObs (cap b : Nat) (t : Track) (op obs : String) : Track :=
-  let words := (obs.splitOn " ").filter (· ≠ "")
+  let words0 := (obs.splitOn " ").filter (· ≠ "")
+  -- `… take=ok v`: the consumer blocked in Take() received v right after this step
+  let takeV : Option String := match words0.dropWhile (· ≠ "take=ok") with | _ :: v :: _ => some v | _ => none
+  let words := if takeV.isSome then words0.takeWhile (· ≠ "take=ok") else words0
   let accept := fun (t : Track) (v : Nat) =>
     if t.held ≥ cap + b then flag t s!"value {v} accepted although {t.held} values are held (bound {cap + b})"
     else { t with accepted := t.accepted ++ [v] }
@@ -416,10 +433,18 @@ def trackObs (cap b : Nat) (t : Track) (op obs : String) : Track :=
     | ["lost-loader"] => flag t "loader did not reach its next point"
     | _ => t
   -- a pending Offer completes with the pass
-  if words.contains "offer=nil" then
-    (match t.pendingV with | some v => { accept t v with pendingV := none } | none => t)
-  else if words.contains "offer=full" then { isFull t with pendingV := none }
-  else t
+  let t := if words.contains "offer=nil" then
+      (match t.pendingV with | some v => { accept t v with pendingV := none } | none => t)
+    else if words.contains "offer=full" then { isFull t with pendingV := none }
+    else t
+  let t := if words0.contains "take=blocked" ∨ words0.contains "offer=blocked" then flag t "a call that could complete stayed blocked" else t
+  match takeV with
+  | some v =>
+    (match v.toNat? with
+     | some v => if t.accepted[t.ndelivered]? = some v then { t with ndelivered := t.ndelivered + 1 }
+                 else flag t s!"Take delivered {v} but the next accepted value is {t.accepted[t.ndelivered]?}"
+     | none => flag t "unparsable value")
+  | none => t
 
 def judgeSeq (cap b : Nat) (body impl : String) : String :=
   let ops := splitOps body
